@@ -7,7 +7,8 @@
     writer operations and reopens; [crash_fs j k] is the directory after the first k of them
     (each mutation atomic, applied in issue order); [recover] is the restart. *)
 From RN Require Import Base.Res Base.Fs Codec.Varint RaftLog.IndexFile RaftLog.AddrMapProofs
-  RaftLog.IndexCodecProofs RaftLog.IndexFileProofs RaftLog.Crash RaftLog.CrashProofs.
+  RaftLog.IndexCodecProofs RaftLog.IndexFileProofs RaftLog.Crash RaftLog.CrashProofs
+  RaftLog.CrashAck RaftLog.CrashAckProofs.
 Local Open Scope N_scope.
 
 (** every crash state reopens without error, to exactly the state after some prefix of the
@@ -41,3 +42,13 @@ Proof. exact applied_never_past_reproducible. Qed.
 Theorem C04_other_files_independent : forall n m s,
   mut_touches m n = false -> fs_get n (apply_mut s m) = fs_get n s.
 Proof. exact apply_mut_other. Qed.
+
+(** with acknowledgements in the journal (a record save answers only after its rewrite, as the
+    repaired handler does): every crash state reopens to the state after j operations, and every
+    save acknowledged before the crash point is among those j (nothing acknowledged is lost) *)
+Theorem C04_crash_safe_acked : forall sh, shuffles sh -> forall ops k,
+  Forall wf_op ops -> fits (ri_default, 0) ops -> (k <= length (ejournal sh ops))%nat ->
+  exists st j, recover sh (apply_muts [] (muts_of (firstn k (ejournal sh ops)))) = Ok st /\ (j <= length ops)%nat /\
+    i_index st = fst (arun (firstn j ops)) /\ i_applied st = snd (arun (firstn j ops)) /\
+    forall i, In (EAck i) (firstn k (ejournal sh ops)) -> (i < j)%nat.
+Proof. exact crash_safe_acked. Qed.
